@@ -3,8 +3,11 @@ import QuickAdd.Lemmas.Cal
 import QuickAdd.Lemmas.Regex
 import QuickAdd.Gen.RegexTable
 import QuickAdd.Lemmas.RegexGroups
+import QuickAdd.Lemmas.Capture
 import QuickAdd.Props.C03
 import QuickAdd.Props.C06
+import QuickAdd.Lemmas.SearchWF
+import QuickAdd.Props.C15
 /-!
 # C02 — every resolution is a well-formed calendar value; accessors never fail
 
@@ -196,27 +199,15 @@ theorem latent_wf (ts : Ts) (h mi : Int) (hh : 0 ≤ h ∧ h ≤ 23) (hm : 0 ≤
 theorem untrimmed_match_nonempty (p : Gen.Pat) (hp : 0 < minLen p.rx) (s : List Nat) (m : Nat × Nat × Caps) (hm : m ∈ findAll Gen.rxTabs p.rx s) : m.1 < m.2.1 :=
   findAll_nonempty Gen.rxTabs p.rx hp s m hm
 
-/-! ### digit groups of the shipped patterns only capture in-range numbers -/
-def fieldRange (n : String) : Option (Int × Int) :=
-  if n == "day" then some (1, 31) else if n == "month" then some (1, 12) else if n == "hour" then some (0, 23) else if n == "minute" then some (0, 59) else none
-
-def tableDigitCheck : Bool :=
-  Gen.table.all fun p => p.names.all fun (n, i) => match fieldRange n with
-    | some (lo, hi) => groupCheck Gen.rxTabs p.rx i (intInRange lo hi)
-    | none => true
-
-set_option maxRecDepth 100000 in
+/-! ### digit groups of the shipped patterns only capture in-range numbers (`Lemmas/Capture`) -/
 /-- kernel evaluation over the regenerated table: all words of the finite language of every day/month/hour/minute group body -/
-theorem digit_groups_in_range : tableDigitCheck = true := by decide +kernel
+theorem digit_groups_in_range : tableDigitCheck = true := QuickAdd.digit_groups_in_range
 
 /-- for every shipped pattern, every text and every match: what a day/month/hour/minute group captured is in range -/
 theorem capture_in_range (p : Gen.Pat) (hp : p ∈ Gen.table) (n : String) (i : Nat) (hn : (n, i) ∈ p.names) (lo hi : Int) (hf : fieldRange n = some (lo, hi))
     (txt : List Nat) (m : Nat × Nat × Caps) (hm : m ∈ findAll Gen.rxTabs p.rx txt) (s e : Nat) (hc : (i, s, e) ∈ m.2.2) :
-    intInRange lo hi ((txt.drop s).take (e - s)) = true := by
-  have h1 := List.all_eq_true.mp digit_groups_in_range p hp
-  have h2 := List.all_eq_true.mp h1 (n, i) hn
-  simp only [hf] at h2
-  exact groupCheck_sound Gen.rxTabs txt p.rx i _ h2 m.2.2 (findAll_caps Gen.rxTabs p.rx txt m hm) s e hc
+    intInRange lo hi ((txt.drop s).take (e - s)) = true :=
+  QuickAdd.capture_in_range p hp n i hn lo hi hf txt m hm s e hc
 
 /-- carried to a production: if the token's `day` group holds such a captured text, `ruleDOM1` yields a day in 1–31
     (or raises on the listed exotic digits, never an out-of-range day) -/
@@ -238,5 +229,167 @@ example : (Time.WF { year := some 2019, month := some 2, day := some 29 }) = fal
 example : (Time.WF { month := some 2, day := some 29 }) = true := by decide
 example : (Time.WF { hour := some 24 }) = false := by decide
 example : applyRule "ruleDDMMYYYY" ⟨⟨2018, 3, 7⟩, 12, 43⟩ [⟨.tok { id := 126, caps := [("day", [50, 57]), ("month", [48, 50]), ("year", [49, 57])] }, 0, 8⟩] = .ok none := by decide +kernel
+
+/-! ### end to end: every candidate of every parse (model level) -/
+
+/-- the calendar check is an invariant of reachable productions: pattern matches pass trivially, every rule result passed it -/
+theorem reach_cal {S : Type} (sc : Scorer S) (ts : Ts) (depth : Nat) (txt : List Nat) (init : List (E Art S))
+    (hinit : ∀ e ∈ init, ∀ a ∈ e.prod, valCalOk a.v = true) (p : List Art) (t : List String) (rules : List (String × List Gen.Pred))
+    (hr : ReachE (mkCfg sc ts depth txt) init p t rules) : ∀ a ∈ p, valCalOk a.v = true := by
+  induction hr with
+  | init hm => exact hinit _ hm
+  | @step p t rules succs p' t' n _ hexp hmem ih =>
+    intro a ha
+    obtain ⟨r, _, i, _, x, hx, e⟩ := C15.expand_sound ts rules p t succs hexp _ hmem
+    have e1 : p' = p.take i ++ x :: p.drop (i + r.2.length) := by
+      have := congrArg Prod.fst e; simpa using this
+    rw [e1] at ha
+    simp only [List.mem_append, List.mem_cons] at ha
+    rcases ha with ha | rfl | ha
+    · exact ih a (List.mem_of_mem_take ha)
+    · exact wrapper_calendar r.1 ts _ _ hx
+    · exact ih a (List.mem_of_mem_drop ha)
+
+theorem initialStack_cal {S : Type} (sc : Scorer S) (depth num den : Nat) (txt : List Nat) (fuel : Nat) :
+    ∀ e ∈ (initialStack sc depth num den txt fuel).1, ∀ a ∈ e.prod, valCalOk a.v = true := by
+  intro e he a ha
+  unfold initialStack at he
+  simp only at he
+  have h3 := mem_sortE _ _ _ (List.mem_filter.mp (mem_trunc _ _ _ he)).1
+  simp only [List.mem_map] at h3
+  obtain ⟨s, hs, rfl⟩ := h3
+  have hm := regexStack_mem txt _ fuel s hs a ha
+  unfold matchRegex at hm
+  have h1 := mem_sortBy _ _ _ hm
+  simp only [List.mem_flatMap, List.mem_map] at h1
+  obtain ⟨p, _, m, _, rfl⟩ := h1
+  rfl
+
+/-- **every streamed candidate is well formed** — for every text, every valid reference time, every scorer, depth limit,
+    `relative_match_len` and deadline: month 1–12, day 1–31, hour 0–23, minute 0–59, weekday 0–6, part of day known to the
+    table (`Val.Ok`), and its day exists in its month and year (`valCalOk`) -/
+theorem search_candidates_ok {S : Type} (sc : Scorer S) (ts : Ts) (hts : ts.Valid) (o : Opts) (txt : List Nat) (fuel : Nat) :
+    ∀ c ∈ (searchCore sc ts o txt fuel).1.1, c.res.v.Ok ∧ valCalOk c.res.v = true := by
+  intro c hc
+  obtain ⟨p, rules, hr, hm, _⟩ := C15.search_sound sc ts o txt fuel c hc
+  exact ⟨reach_ok sc ts hts o.depth txt _ (initialStack_ok sc _ _ _ txt fuel) p _ rules hr c.res hm,
+         reach_cal sc ts o.depth txt _ (initialStack_cal sc _ _ _ txt fuel) p _ rules hr c.res hm⟩
+
+/-- … and so is every candidate of `ctparse_gen`, with and without latent-time anchoring -/
+theorem parse_candidates_ok {S : Type} (sc : Scorer S) (ts : Ts) (hts : ts.Valid) (o : Opts) (raw : List Nat) (fuel : Nat) :
+    ∀ c ∈ (ctparseGen sc ts o raw fuel).cands, c.res.v.Ok := by
+  intro c hc
+  unfold ctparseGen at hc
+  simp only at hc
+  split at hc
+  · exact latentAll_ok ts hts _ (fun c hc => (search_candidates_ok sc ts hts o _ fuel c hc).1) c hc
+  · exact (search_candidates_ok sc ts hts o _ fuel c hc).1
+
+/-! ### accessors on what the parser yields -/
+theorem podHours_range : (Gen.podHours.all fun e => decide (0 ≤ e.2.1 ∧ e.2.1 ≤ 23 ∧ 0 ≤ e.2.2 ∧ e.2.2 ≤ 23)) = true := by decide +kernel
+
+theorem podLookup_range (p : String) (a b : Int) (h : podLookup p = some (a, b)) : 0 ≤ a ∧ a ≤ 23 ∧ 0 ≤ b ∧ b ≤ 23 := by
+  unfold podLookup at h
+  cases hf : Gen.podHours.find? (·.1 == p) with
+  | none => simp [hf] at h
+  | some e =>
+    obtain ⟨q, x, y⟩ := e
+    simp [hf] at h
+    obtain ⟨rfl, rfl⟩ := h
+    have := List.all_eq_true.mp podHours_range _ (List.mem_of_find?_eq_some hf)
+    simpa using this
+
+/-- `start` / `end` never fail on a value whose part of day is known — in particular on every candidate -/
+theorem accessors_total_ok (t : Time) (h : t.Ok) : (∃ s, t.start = .ok s) ∧ (∃ e, t.end_ = .ok e) := by
+  have key : ∀ p, t.pod = some p → ∃ hrs, podLookup p = some hrs := by
+    intro p hp
+    have := h.pod p hp
+    cases hq : podLookup p with
+    | none => simp [hq] at this
+    | some hrs => exact ⟨hrs, rfl⟩
+  constructor
+  · unfold Time.start
+    by_cases hc : (t.hour.isNone && t.hasPOD) = true
+    · simp only [hc, if_true]
+      cases hp : t.pod with
+      | none => simp [Time.hasPOD, Time.hasAtLeast, Time.isSet, hp] at hc
+      | some p =>
+        obtain ⟨hrs, hl⟩ := key p hp
+        simp [hl, bind, Except.bind, pure, Except.pure]
+    · simp [hc, bind, Except.bind, pure, Except.pure]
+  · unfold Time.end_
+    by_cases hc : (t.hour.isNone && t.hasPOD) = true
+    · simp only [hc, if_true]
+      cases hp : t.pod with
+      | none => simp [Time.hasPOD, Time.hasAtLeast, Time.isSet, hp] at hc
+      | some p =>
+        obtain ⟨hrs, hl⟩ := key p hp
+        simp [hl, bind, Except.bind, pure, Except.pure]
+    · simp [hc, bind, Except.bind, pure, Except.pure]
+
+/-- the start of a well-formed value has its hour in 0–23 and its minute in 0–59 -/
+theorem start_clock (t s : Time) (h : t.Ok) (hs : t.start = .ok s) :
+    s.year = t.year ∧ s.month = t.month ∧ s.day = t.day ∧ (∃ x, s.hour = some x ∧ 0 ≤ x ∧ x ≤ 23) ∧ (∃ x, s.minute = some x ∧ 0 ≤ x ∧ x ≤ 59) := by
+  unfold Time.start at hs
+  by_cases hc : (t.hour.isNone && t.hasPOD) = true
+  · simp only [hc, if_true] at hs
+    cases hp : t.pod with
+    | none => simp [Time.hasPOD, Time.hasAtLeast, Time.isSet, hp] at hc
+    | some p =>
+      cases hl : podLookup p with
+      | none => simp [hp, hl, bind, Except.bind, throw, throwThe, MonadExceptOf.throw] at hs
+      | some ab =>
+        obtain ⟨a, b⟩ := ab
+        simp [hp, hl, bind, Except.bind, pure, Except.pure] at hs
+        subst hs
+        have := podLookup_range p a b hl
+        refine ⟨rfl, rfl, rfl, ⟨a, rfl, this.1, this.2.1⟩, ?_⟩
+        cases hm : t.minute with
+        | none => exact ⟨0, rfl, by omega, by omega⟩
+        | some m => exact ⟨m, rfl, (h.minute m hm).1, (h.minute m hm).2⟩
+  · simp [hc, bind, Except.bind, pure, Except.pure] at hs
+    subst hs
+    refine ⟨rfl, rfl, rfl, ?_, ?_⟩
+    · cases hh : t.hour with
+      | none => exact ⟨0, by simp, by omega, by omega⟩
+      | some x => exact ⟨x, by simp, (h.hour x hh).1, (h.hour x hh).2⟩
+    · cases hm : t.minute with
+      | none => exact ⟨0, rfl, by omega, by omega⟩
+      | some m => exact ⟨m, rfl, (h.minute m hm).1, (h.minute m hm).2⟩
+
+/-- `dt` never fails on a well-formed value that carries a full date which passed the calendar check -/
+theorem dt_total_ok (t : Time) (h : t.Ok) (hc : timeCalOk t = true) (y m d : Int) (hy : t.year = some y) (hm : t.month = some m) (hd : t.day = some d) :
+    ∃ x, t.dt = .ok x := by
+  obtain ⟨s, hs⟩ := (accessors_total_ok t h).1
+  obtain ⟨e1, e2, e3, ⟨hh, ehh, hh1, hh2⟩, ⟨mi, emi, mi1, mi2⟩⟩ := start_clock t s h hs
+  unfold Time.dt
+  simp only [hs, bind, Except.bind, e1, e2, e3, hy, hm, hd, ehh, emi, Option.getD_some]
+  have hcal : (⟨y, m, d⟩ : Date).valid = true ∧ (⟨y, m, d⟩ : Date).inRange = true := by
+    unfold timeCalOk at hc
+    simp only [hy, hm, hd, Option.getD_some] at hc
+    have hmm := h.month m hm
+    have hdd := h.day d hd
+    simp only [Bool.and_eq_true, decide_eq_true_eq] at hc
+    obtain ⟨⟨hy1, hy2⟩, hif⟩ := hc
+    have : (1 ≤ m ∧ m ≤ 12) := hmm
+    simp only [this.1, this.2, and_self, if_true, decide_eq_true_eq] at hif
+    constructor
+    · simp [Date.valid]; omega
+    · simp [Date.inRange]; omega
+  simp [hcal.1, hcal.2, hh1, hh2, mi1, mi2, pure, Except.pure]
+
+/-- **accessors of every streamed candidate**: `start` and `end` succeed; `dt` succeeds whenever year, month and day are present -/
+theorem candidate_accessors_total {S : Type} (sc : Scorer S) (ts : Ts) (hts : ts.Valid) (o : Opts) (txt : List Nat) (fuel : Nat) :
+    ∀ c ∈ (searchCore sc ts o txt fuel).1.1, ∀ t, c.res.v = .time t →
+      (∃ s, t.start = .ok s) ∧ (∃ e, t.end_ = .ok e) ∧ (∀ y m d, t.year = some y → t.month = some m → t.day = some d → ∃ x, t.dt = .ok x) := by
+  intro c hc t ht
+  obtain ⟨hok, hcal⟩ := search_candidates_ok sc ts hts o txt fuel c hc
+  rw [ht] at hok hcal
+  have hok' : t.Ok := hok
+  have hcal' : timeCalOk t = true := hcal
+  exact ⟨(accessors_total_ok t hok').1, (accessors_total_ok t hok').2, fun y m d hy hm hd => dt_total_ok t hok' hcal' y m d hy hm hd⟩
+
+/-- non-vacuity: a concrete parse with a candidate, on which the statement speaks -/
+example : (ctparseGen (constScorer) ⟨⟨2018, 3, 7⟩, 12, 43⟩ {} [53, 112, 109] 200).cands.length > 0 := by decide +kernel
 
 end QuickAdd.C02
